@@ -2,6 +2,7 @@ import PsV.Driver.Common
 import PsV.Driver.C04
 import PsV.Driver.C16
 import PsV.Driver.C19
+import PsV.Driver.C13
 import PsV.Driver.Eval
 import PsV.Driver.C15
 import PsV.Driver.C12
@@ -18,7 +19,8 @@ def drivers : List (String × IO Unit) :=
    ("C15", stateless C15.handle),
    ("C12", C12.run),
    ("C19", stateless C19.handle),
-   ("C14", C14.run)]
+   ("C14", C14.run),
+   ("C13", stateless C13.handle)]
 
 def main (args : List String) : IO UInt32 := do
   match args with
